@@ -23,6 +23,27 @@ def local_ref(path, ctx):
 _REL = {"Gt": ">", "Lt": "<", "Ge": ">=", "Le": "<=", "Eq": "==", "Ne": "!="}
 
 
+def args_of_text(text):
+    """'(a, b, c)...' -> (['a', 'b', 'c'], rest) splitting at top-level commas."""
+    depth, cur, out = 0, "", []
+    for i, ch in enumerate(text):
+        if ch == "(":
+            depth += 1
+            if depth == 1:
+                continue
+        elif ch == ")":
+            depth -= 1
+            if depth == 0:
+                out.append(cur.strip())
+                return out, text[i + 1:]
+        elif ch == "," and depth == 1:
+            out.append(cur.strip())
+            cur = ""
+            continue
+        cur += ch
+    raise ValueError("unbalanced")
+
+
 def to_mmt(tokens):
     """The specification's tokens (gotranx syntax) in Myokit's syntax: Conditional(c, a, b) -> if(c, a, b),
     Gt(a, b) -> (a > b), And/Or/Not -> and/or/not."""
@@ -55,7 +76,12 @@ def to_mmt(tokens):
             args, i = args_of(i + 1)
             a = [" ".join(to_mmt(x)) for x in args]
             if t == "Conditional":
-                out.append(f"if({a[0]}, {a[1]}, {a[2]})")
+                # an else-branch that is itself a conditional: Myokit's flat multi-branch piecewise(c1, a, c2, b, d)
+                if a[2].startswith("if(") and a[2].endswith(")"):
+                    inner, _ = args_of_text(a[2][2:])
+                    out.append(f"piecewise({a[0]}, {a[1]}, {', '.join(inner)})")
+                else:
+                    out.append(f"if({a[0]}, {a[1]}, {a[2]})")
             elif t in _REL:
                 out.append(f"(({a[0]}) {_REL[t]} ({a[1]}))")
             elif t == "Not":
@@ -170,12 +196,31 @@ def check_case(rec):
             return out
         ns = gx.exec_module(gx.numpy_code(ode2))
         p = ns["init_parameter_values"]()
+        # the imported model before it was saved, where it can be generated directly (C11: saving changes nothing)
+        try:
+            ns_pre = gx.exec_module(gx.numpy_code(ode))
+            p_pre = ns_pre["init_parameter_values"]()
+        except Exception:  # noqa: BLE001
+            ns_pre = None
         for pt in rec["points"]:
             s = np.zeros(len(qnames))
             for q in qnames:
                 s[ns["state_index"](uname[q])] = qf(pt["state"][q])
             with gx.quiet_np():
                 vals = ns["rhs"](0.0, s, p)
+            if ns_pre is not None:
+                try:
+                    s_pre = np.zeros(len(qnames))
+                    for q in qnames:
+                        s_pre[ns_pre["state_index"](uname[q])] = qf(pt["state"][q])
+                    with gx.quiet_np():
+                        v_pre = ns_pre["rhs"](0.0, s_pre, p_pre)
+                    for q in qnames:
+                        a, b = float(v_pre[ns_pre["state_index"](uname[q])]), float(vals[ns["state_index"](uname[q])])
+                        if a == a and b == b and abs(a - b) > 1e-9 * max(1.0, abs(a)):
+                            out["problems"].append({"kind": "save-reload-changes-rhs", "state": q, "before_saving": a, "after_reload": b})
+                except Exception:  # noqa: BLE001
+                    pass
             for q in qnames:
                 want, mag = resid.value(pt["deriv"][q])
                 out["compared"] += 1
